@@ -42,7 +42,7 @@ fn count_non_sack() {
     let prev: u8 = kani::any();
     let mut last: Option<LastAck> = if kani::any() { Some(LastAck { window: kani::any(), ack_nr: SeqNr(kani::any()) }) } else { None };
     let before = last;
-    let r = count_non_sack_duplicates(&h, &OnAckResult::default(), prev, &mut last);
+    let r = count_non_sack_duplicates(&h, &any_on_ack_result(), prev, &mut last);
     let dup = match before { Some(l) => h.htype == Type::ST_STATE && l.ack_nr == h.ack_nr && l.window == h.wnd_size, None => false };
     if dup {
         assert!(r == prev.saturating_add(1));
@@ -55,14 +55,21 @@ fn count_non_sack() {
     }
 }
 
+// any ACK-processing result: the duplicate/SACK evidence must be counted the same whether or not this ACK also moved the cumulative point
+fn any_on_ack_result() -> OnAckResult {
+    OnAckResult { acked_segments_count: kani::any(), acked_bytes: kani::any(), max_acked_payload_size: kani::any(),
+        newly_sacked_segment_count: kani::any(), newly_sacked_byte_count: kani::any(),
+        new_rtt: if kani::any() { Some(Duration::from_millis(kani::any::<u32>() as u64)) } else { None } }
+}
+
 //@ harness id=recovery.k.count_sack_none kind=complete props=C06 tier=quick timeout=300 text="count_sack_duplicates on a header without SACK (a cumulative ACK) resets the duplicate counter to 0"
 #[kani::proof]
 fn count_sack_none() {
     let h = any_plain_header();
-    assert!(count_sack_duplicates(&h, &OnAckResult::default(), kani::any()) == 0);
+    assert!(count_sack_duplicates(&h, &any_on_ack_result(), kani::any()) == 0);
 }
 
-//@ harness id=recovery.k.count_sack_some kind=bounded props=C06 tier=quick timeout=900 bound="selective ACK of one byte (8 packets)" text="count_sack_duplicates with a SACK (the `equivalent selective-ACK evidence`): returns the threshold 3 at once when >= 3 packets are selectively acked, else counter + 1"
+//@ harness id=recovery.k.count_sack_some kind=bounded props=C06 tier=quick timeout=900 bound="selective ACK of one byte (8 packets)" text="count_sack_duplicates with a SACK (the `equivalent selective-ACK evidence`): returns the threshold 3 at once when >= 3 packets are selectively acked, else counter + 1 - whatever else this ACK did (any OnAckResult, e.g. it also advanced the cumulative point)"
 #[kani::proof]
 #[kani::unwind(10)]
 fn count_sack_some() {
@@ -71,7 +78,7 @@ fn count_sack_some() {
     h.extensions.selective_ack = Some(crate::raw::selective_ack::SelectiveAck::deserialize(&bytes));
     let prev: u8 = kani::any();
     kani::assume(prev < 3);
-    let r = count_sack_duplicates(&h, &OnAckResult::default(), prev);
+    let r = count_sack_duplicates(&h, &any_on_ack_result(), prev);
     let ones = bytes[0].count_ones();
     assert!(r == if ones >= 3 { 3 } else { prev + 1 });
 }
@@ -114,7 +121,7 @@ fn check_on_ack_counting<const N: usize>() {
     let mut m = any_mock();
     let ms: u64 = kani::any();
     kani::assume(ms <= 60_000);
-    r.on_ack(&h, &OnAckResult::default(), &mut segs, last_sent, &mut m, any_instant(), Duration::from_millis(ms));
+    r.on_ack(&h, &any_on_ack_result(), &mut segs, last_sent, &mut m, any_instant(), Duration::from_millis(ms));
     let dup = match last { Some(l) => h.htype == Type::ST_STATE && l.ack_nr == h.ack_nr && l.window == h.wnd_size, None => false };
     assert!(!r.receiver_supports_sack);
     match una0 {
@@ -167,7 +174,7 @@ fn check_on_ack_other_phases<const N: usize>() {
     if kani::any() {
         // a timeout recovery is in progress: duplicates are ignored until the recovery point is acked
         let mut r = Recovery { receiver_supports_sack: kani::any(), last_ack: None, phase: RecoveryPhase::IgnoringUntilRecoveryPoint { recovery_point: rp } };
-        r.on_ack(&h, &OnAckResult::default(), &mut segs, last_sent, &mut m, any_instant(), Duration::from_millis(50));
+        r.on_ack(&h, &any_on_ack_result(), &mut segs, last_sent, &mut m, any_instant(), Duration::from_millis(50));
         assert!(m.enter == 0 && m.recovered == 0);
         if h.ack_nr >= rp {
             assert!(matches!(r.phase, RecoveryPhase::CountingDuplicates { dup_acks: 0 }));
@@ -179,7 +186,7 @@ fn check_on_ack_other_phases<const N: usize>() {
             pipe_estimate: Pipe { pipe: kani::any(), recalc_timer: None }, cwnd: kani::any() };
         kani::assume(rec.cwnd <= (1 << 40));
         let mut r = Recovery { receiver_supports_sack: kani::any(), last_ack: None, phase: RecoveryPhase::Recovering(rec) };
-        r.on_ack(&h, &OnAckResult::default(), &mut segs, last_sent, &mut m, any_instant(), Duration::from_millis(50));
+        r.on_ack(&h, &any_on_ack_result(), &mut segs, last_sent, &mut m, any_instant(), Duration::from_millis(50));
         assert!(m.enter == 0);
         if h.ack_nr >= rp {
             // full acknowledgement: leave recovery exactly once; the old recovery cwnd becomes ssthresh
